@@ -177,7 +177,7 @@ pub fn expected_body(l: &MLocal) -> Option<Vec<(Ins, String)>> {
                     let mut j = i;
                     loop {
                         match l.body[j].ins {
-                            Ins::Block(_) | Ins::Loop(_) | Ins::If(_) => depth += 1,
+                            Ins::Block(_) | Ins::Loop(_) | Ins::If(_) | Ins::TryTable(..) => depth += 1,
                             Ins::End => {
                                 depth -= 1;
                                 if depth == 0 {
@@ -210,7 +210,7 @@ pub fn expected_body(l: &MLocal) -> Option<Vec<(Ins, String)>> {
                     let mut j = i + 1;
                     loop {
                         match l.body[j].ins {
-                            Ins::Block(_) | Ins::Loop(_) | Ins::If(_) => depth += 1,
+                            Ins::Block(_) | Ins::Loop(_) | Ins::If(_) | Ins::TryTable(..) => depth += 1,
                             Ins::End => {
                                 if depth == 0 {
                                     break;
@@ -837,7 +837,7 @@ fn probe_expected_to_vanish(l: &MLocal, instr: usize, mode: Mode) -> bool {
             let mut j = i;
             loop {
                 match l.body[j].ins {
-                    Ins::Block(_) | Ins::Loop(_) | Ins::If(_) => depth += 1,
+                    Ins::Block(_) | Ins::Loop(_) | Ins::If(_) | Ins::TryTable(..) => depth += 1,
                     Ins::End => {
                         if is_else && depth == 0 {
                             break;
